@@ -615,6 +615,9 @@ func (e *Env) Term(v ssa.Value) string {
 	case *ssa.Field:
 		return e.Term(v.X) + "." + fieldName(v.X.Type(), v.Field)
 	case *ssa.IndexAddr:
+		if be, base, off, ok := e.sliceBase(v.X, 0); ok {
+			return be.Term(base) + "[" + off.plus(e.LE(v.Index)).String() + "]" // x[a:b][i] is x[a+i]
+		}
 		return e.Term(v.X) + "[" + e.LE(v.Index).String() + "]"
 	case *ssa.Index:
 		return e.Term(v.X) + "[" + e.LE(v.Index).String() + "]"
@@ -631,6 +634,20 @@ func (e *Env) Term(v ssa.Value) string {
 		if lo == "" && hi == "" && v.Max == nil {
 			return e.Term(v.X)
 		}
+		if be, base, off, ok := e.sliceBase(v.X, 0); ok {
+			// x[a:b][c:d] is x[a+c:a+d]; x[a:b][c:] is x[a+c:b]
+			nlo := off
+			if v.Low != nil {
+				nlo = off.plus(e.LE(v.Low))
+			}
+			nhi := ""
+			if v.High != nil {
+				nhi = off.plus(e.LE(v.High)).String()
+			} else if in, ok := e.innerHigh(v.X, 0); ok {
+				nhi = in
+			}
+			return be.Term(base) + "[" + nlo.String() + ":" + nhi + "]"
+		}
 		return e.Term(v.X) + "[" + lo + ":" + hi + "]"
 	case *ssa.UnOp:
 		if v.Op == token.MUL {
@@ -639,6 +656,9 @@ func (e *Env) Term(v ssa.Value) string {
 			}
 			if sv, fld := wholeStructForward(v); sv != nil {
 				return e.Term(sv) + "." + fld
+			}
+			if w, we := e.ctorField(v); w != nil {
+				return we.Term(w)
 			}
 			return "*" + e.Term(v.X)
 		}
@@ -766,8 +786,27 @@ func (e *Env) inlineResult(call *ssa.Call, i int) (ssa.Value, *Env) {
 		}
 	}
 	res := sc.Signature.Results()
-	if i >= res.Len() || isBigIntPtr(res.At(i).Type()) || res.At(i).Type().String() == "error" {
+	if i >= res.Len() || res.At(i).Type().String() == "error" {
 		return nil, nil
+	}
+	isBig := isBigIntPtr(res.At(i).Type())
+	if isBig {
+		// a number built by the helper (`value := big.NewInt(0).SetBytes(args[1]); return value, nil`) keeps its pure term,
+		// provided neither the helper nor this caller mutates it afterwards
+		var user ssa.Value = call
+		if res.Len() > 1 {
+			user = nil
+			if call.Referrers() != nil {
+				for _, r := range *call.Referrers() {
+					if x, ok := r.(*ssa.Extract); ok && x.Index == i {
+						user = x
+					}
+				}
+			}
+		}
+		if user == nil || e.P.mutatedAsBig(user, nil) {
+			return nil, nil
+		}
 	}
 	key := inlineKey{e.ctx, call, i}
 	if r, ok := inlineCache[key]; ok {
@@ -789,7 +828,7 @@ func (e *Env) inlineResult(call *ssa.Call, i int) (ssa.Value, *Env) {
 		if !sel(r) || i >= len(r.Results) {
 			continue
 		}
-		rv := retval(r, i)
+		rv := liveRetval(r, i)
 		s := sub.Term(rv)
 		if n > 0 && s != t {
 			return nil, nil
@@ -799,6 +838,11 @@ func (e *Env) inlineResult(call *ssa.Call, i int) (ssa.Value, *Env) {
 	}
 	if n == 0 || strings.Contains(t, "@"+sub.ctx) {
 		return nil, nil
+	}
+	if isBig {
+		if _, ok := sub.bigTerm(first); !ok {
+			return nil, nil
+		}
 	}
 	inlineCache[key] = inlineRes{first, sub}
 	return first, sub
@@ -890,6 +934,177 @@ func usedOnlyOnSuccess(call *ssa.Call) bool {
 		}
 	}
 	return true
+}
+
+// ctorField: u loads field f of an object built by a module constructor (`newX(a, b)` returning `&X{f: a, g: b}`, possibly
+// reached through parameters: a parameter object handed to a method): returns the value the constructor stored into f and
+// the env to read it in. Only for fields that nothing but that constructor ever assigns.
+func (e *Env) ctorField(u *ssa.UnOp) (ssa.Value, *Env) {
+	if u.Op != token.MUL {
+		return nil, nil
+	}
+	fa, ok := u.X.(*ssa.FieldAddr)
+	if !ok {
+		return nil, nil
+	}
+	base, env := fa.X, e
+	for d := 0; d < 6; d++ {
+		par, ok := base.(*ssa.Parameter)
+		if !ok {
+			break
+		}
+		a, pe := env.actual(par)
+		if a == nil {
+			return nil, nil
+		}
+		base, env = a, pe
+	}
+	var call *ssa.Call
+	switch x := base.(type) {
+	case *ssa.Call:
+		call = x
+	case *ssa.Extract:
+		if c, ok := x.Tuple.(*ssa.Call); ok && x.Index == 0 {
+			call = c
+		}
+	}
+	if call == nil || env.depth >= 5 {
+		return nil, nil
+	}
+	sc := call.Call.StaticCallee()
+	if sc == nil || len(sc.Blocks) == 0 || sc.Pkg == nil || !strings.HasPrefix(sc.Pkg.Pkg.Path(), modPath) {
+		return nil, nil
+	}
+	// every return yields the same fresh allocation
+	var obj *ssa.Alloc
+	for _, r := range returnsOf(sc) {
+		if len(r.Results) == 0 {
+			return nil, nil
+		}
+		if lastIsError(sc) && !isSuccessReturn(r) {
+			continue
+		}
+		al, ok := retval(r, 0).(*ssa.Alloc)
+		if !ok || obj != nil && al != obj {
+			return nil, nil
+		}
+		obj = al
+	}
+	if obj == nil || obj.Referrers() == nil {
+		return nil, nil
+	}
+	var stored ssa.Value
+	for _, ref := range *obj.Referrers() {
+		f2, ok := ref.(*ssa.FieldAddr)
+		if !ok || f2.Field != fa.Field || f2.Referrers() == nil {
+			continue
+		}
+		for _, r2 := range *f2.Referrers() {
+			if st, ok := r2.(*ssa.Store); ok && st.Addr == ssa.Value(f2) {
+				if stored != nil {
+					return nil, nil
+				}
+				stored = st.Val
+			}
+		}
+	}
+	if stored == nil || !e.P.fieldAssignedOnlyIn(obj.Type(), fa.Field, sc) {
+		return nil, nil
+	}
+	return stored, env.Sub(call, sc)
+}
+
+var fieldOwnerCache = map[string]bool{}
+
+// fieldAssignedOnlyIn: no function of the module other than ctor stores into field idx of the struct type.
+func (p *Prog) fieldAssignedOnlyIn(ptrT types.Type, idx int, ctor *ssa.Function) bool {
+	key := ptrT.String() + "#" + fmt.Sprint(idx) + "#" + FuncName(ctor)
+	if v, ok := fieldOwnerCache[key]; ok {
+		return v
+	}
+	res := true
+	for _, fn := range p.Funcs {
+		if fn == ctor {
+			continue
+		}
+		for _, b := range fn.Blocks {
+			for _, in := range b.Instrs {
+				st, ok := in.(*ssa.Store)
+				if !ok {
+					continue
+				}
+				if f2, ok := st.Addr.(*ssa.FieldAddr); ok && f2.Field == idx && types.Identical(f2.X.Type(), ptrT) {
+					res = false
+				}
+			}
+		}
+	}
+	fieldOwnerCache[key] = res
+	return res
+}
+
+// sliceBase: v is (a parameter bound to, a forwarded load of) a re-slice x[lo:…] of a slice x: returns x, its env and the
+// accumulated offset, so that elements of a sub-slice are named as elements of the slice they were cut from.
+func (e *Env) sliceBase(v ssa.Value, depth int) (*Env, ssa.Value, LE, bool) {
+	if depth > 6 {
+		return nil, nil, LE{}, false
+	}
+	switch x := v.(type) {
+	case *ssa.Parameter:
+		if a, pe := e.actual(x); a != nil {
+			return pe.sliceBase(a, depth+1)
+		}
+	case *ssa.UnOp:
+		if x.Op == token.MUL {
+			if f := forwarded(x); f != nil {
+				return e.sliceBase(f, depth+1)
+			}
+		}
+	case *ssa.Slice:
+		if _, isSlice := x.X.Type().Underlying().(*types.Slice); !isSlice {
+			return nil, nil, LE{}, false
+		}
+		off := leConst(0)
+		if x.Low != nil {
+			off = e.LE(x.Low)
+		}
+		if be, base, o2, ok := e.sliceBase(x.X, depth+1); ok {
+			return be, base, o2.plus(off), true
+		}
+		if x.Low == nil {
+			return nil, nil, LE{}, false // x[:k] names the same elements as x
+		}
+		return e, x.X, off, true
+	}
+	return nil, nil, LE{}, false
+}
+
+// innerHigh: the upper bound (in the base slice's indices) of an enclosing re-slice, as a string; "" if open.
+func (e *Env) innerHigh(v ssa.Value, depth int) (string, bool) {
+	if depth > 6 {
+		return "", false
+	}
+	switch x := v.(type) {
+	case *ssa.Parameter:
+		if a, pe := e.actual(x); a != nil {
+			return pe.innerHigh(a, depth+1)
+		}
+	case *ssa.UnOp:
+		if x.Op == token.MUL {
+			if f := forwarded(x); f != nil {
+				return e.innerHigh(f, depth+1)
+			}
+		}
+	case *ssa.Slice:
+		if x.High == nil {
+			return "", true
+		}
+		if _, _, off, ok := e.sliceBase(x.X, depth+1); ok {
+			return off.plus(e.LE(x.High)).String(), true
+		}
+		return e.LE(x.High).String(), true
+	}
+	return "", false
 }
 
 func (e *Env) termNoCycle(v ssa.Value, phi *ssa.Phi) string {
@@ -1126,6 +1341,9 @@ func (e *Env) LE(v ssa.Value) LE {
 			if f := forwarded(v); f != nil {
 				return e.LE(f)
 			}
+			if w, we := e.ctorField(v); w != nil {
+				return we.LE(w)
+			}
 		}
 	case *ssa.Phi:
 		t := e.Term(v)
@@ -1183,6 +1401,9 @@ func (e *Env) lenOf(x ssa.Value) LE {
 		if v.Op == token.MUL {
 			if f := forwarded(v); f != nil {
 				return e.lenOf(f)
+			}
+			if w, we := e.ctorField(v); w != nil {
+				return we.lenOf(w)
 			}
 			if g, ok := v.X.(*ssa.Global); ok {
 				if n, ok := e.P.globalLen(g); ok {
@@ -1444,6 +1665,9 @@ func (e *Env) decode0(c ssa.Value, truth bool, why string) []Fact {
 			if f := forwarded(b); f != nil {
 				return e.decode0(f, truth, why)
 			}
+			if w, we := e.ctorField(b); w != nil {
+				return we.decode(w, truth, why)
+			}
 		}
 	case *ssa.Parameter:
 		if a, pe := e.actual(b); a != nil {
@@ -1703,6 +1927,131 @@ func definitelyError(v ssa.Value, at *ssa.BasicBlock, seen map[ssa.Value]bool) b
 	return testedNonNilAt(v, at)
 }
 
+// errorEdges: for a return whose error value is merged from several predecessors (single-exit style: `return out, err`
+// after nested if/else), the edges into the merge blocks along which that value is definitely an error. Obligations about
+// successful returns ignore paths through them.
+func errorEdges(r *ssa.Return) map[edge]bool {
+	out := map[edge]bool{}
+	if len(r.Results) == 0 {
+		return out
+	}
+	rv := retval(r, len(r.Results)-1)
+	if rv.Type().String() != "error" {
+		return out
+	}
+	var walk func(v ssa.Value, seen map[ssa.Value]bool)
+	walk = func(v ssa.Value, seen map[ssa.Value]bool) {
+		phi, ok := v.(*ssa.Phi)
+		if !ok || seen[v] {
+			return
+		}
+		seen[v] = true
+		for i, ed := range phi.Edges {
+			pred := phi.Block().Preds[i]
+			if isNilConst(ed) {
+				continue
+			}
+			if definitelyError(ed, pred, map[ssa.Value]bool{}) || nonNilOnEdge(ed, pred, phi.Block()) {
+				out[edge{pred, phi.Block()}] = true
+				continue
+			}
+			walk(ed, seen)
+		}
+	}
+	walk(rv, map[ssa.Value]bool{})
+	// a test of the returned value itself: its non-nil branch cannot end in a successful return of that value
+	if refs := rv.Referrers(); refs != nil {
+		for _, u := range *refs {
+			bo, ok := u.(*ssa.BinOp)
+			if !ok || !(bo.Op == token.NEQ || bo.Op == token.EQL) || !isNilConst(bo.Y) || bo.Referrers() == nil {
+				continue
+			}
+			for _, w := range *bo.Referrers() {
+				iff, ok := w.(*ssa.If)
+				if !ok || len(iff.Block().Succs) != 2 || iff.Block().Succs[0] == iff.Block().Succs[1] {
+					continue
+				}
+				t := iff.Block().Succs[0]
+				if bo.Op == token.EQL {
+					t = iff.Block().Succs[1]
+				}
+				out[edge{iff.Block(), t}] = true
+			}
+		}
+	}
+	return out
+}
+
+// liveRetval: the i-th result of a successful execution of return r: a φ in the return's own block whose incoming
+// values along the non-error edges all are one value is that value (single-exit style: `if err != nil { x = nil }; return x, err`).
+func liveRetval(r *ssa.Return, i int) ssa.Value {
+	v := retval(r, i)
+	ee := errorEdges(r)
+	if len(ee) == 0 {
+		return v
+	}
+	for d := 0; d < 4; d++ {
+		phi, ok := v.(*ssa.Phi)
+		if !ok {
+			return v
+		}
+		var one ssa.Value
+		n := 0
+		for k, ed := range phi.Edges {
+			if ee[edge{phi.Block().Preds[k], phi.Block()}] {
+				continue
+			}
+			// predecessors that are themselves only reachable through error edges
+			if !reachableAvoiding(phi.Parent().Blocks[0], phi.Block().Preds[k], ee) {
+				continue
+			}
+			if one == nil || one != ed {
+				if one != nil {
+					return v
+				}
+				one = ed
+			}
+			n++
+		}
+		if one == nil {
+			return v
+		}
+		v = one
+	}
+	return v
+}
+
+// nonNilOnEdge: pred ends with a nil test of v whose non-nil branch is the edge pred -> blk.
+func nonNilOnEdge(v ssa.Value, pred, blk *ssa.BasicBlock) bool {
+	if len(pred.Instrs) == 0 || len(pred.Succs) != 2 || pred.Succs[0] == pred.Succs[1] {
+		return false
+	}
+	iff, ok := pred.Instrs[len(pred.Instrs)-1].(*ssa.If)
+	if !ok {
+		return false
+	}
+	bo, ok := iff.Cond.(*ssa.BinOp)
+	if !ok || !(bo.Op == token.NEQ || bo.Op == token.EQL) || !isNilConst(bo.Y) || bo.X != v {
+		return false
+	}
+	t := pred.Succs[0]
+	if bo.Op == token.EQL {
+		t = pred.Succs[1]
+	}
+	return t == blk
+}
+
+// errorEdgesOfFn: the union over all returns.
+func errorEdgesOfFn(fn *ssa.Function) map[edge]bool {
+	out := map[edge]bool{}
+	for _, r := range returnsOf(fn) {
+		for ed := range errorEdges(r) {
+			out[ed] = true
+		}
+	}
+	return out
+}
+
 // testedNonNilAt: block `at` is dominated by the non-nil side of a nil test of v.
 func testedNonNilAt(v ssa.Value, at *ssa.BasicBlock) bool {
 	refs := v.Referrers()
@@ -1911,7 +2260,54 @@ func (e *Env) calleeSuccessFacts(call *ssa.Call, why string) []Fact {
 	assume := e.factsAt(call.Block(), call, nil)
 	sub := e.Sub(call, callee)
 	fs := sub.returnFactsA(isSuccessReturn, why+" via "+callee.Name(), assume)
-	return sub.rewriteResults(call, fs)
+	out := sub.rewriteResults(call, fs)
+	// when the success returns have different reasons (a gate: exempt, or checked), also the disjunction of what each guarantees
+	if alts := sub.returnAlternatives(isSuccessReturn, why+" via "+callee.Name(), assume); len(alts) > 1 {
+		var ra [][]Fact
+		for _, a := range alts {
+			ra = append(ra, sub.rewriteResults(call, a))
+		}
+		out = append(out, orFact(ra, why+" via "+callee.Name()))
+	}
+	return out
+}
+
+// returnAlternatives: per selected (reachable) return, the facts that hold there; nil if there is at most one such return
+// or more than eight.
+func (e *Env) returnAlternatives(sel func(*ssa.Return) bool, why string, assume []Fact) [][]Fact {
+	if e.depth > 4 {
+		return nil
+	}
+	var alts [][]Fact
+	for _, r := range returnsOf(e.Fn) {
+		if !sel(r) {
+			continue
+		}
+		if len(assume) > 0 && e.unreachableUnder(r.Block(), assume) {
+			continue
+		}
+		fs := append([]Fact{}, e.factsAt(r.Block(), r, assume)...)
+		fs = append(fs, e.tailCallFacts(r)...)
+		var keep []Fact
+		for _, f := range fs {
+			if f.Lin && f.LE.isConst() {
+				continue
+			}
+			f.defs = nil
+			if !strings.HasPrefix(f.Why, why) {
+				f.Why = why + " <= " + f.Why
+			}
+			keep = append(keep, f)
+			if len(keep) >= 60 {
+				break
+			}
+		}
+		alts = append(alts, keep)
+	}
+	if len(alts) < 2 || len(alts) > 8 {
+		return nil
+	}
+	return alts
 }
 
 // tailCallFacts: for `return …, f(x)` (the returned error is the result of a call made in the returning block): if
@@ -2010,7 +2406,7 @@ func (e *Env) returnFactsA(sel func(*ssa.Return) bool, why string, assume []Fact
 			continue
 		}
 		m := map[string]Fact{}
-		for _, f := range e.factsAtBlock(r.Block(), assume) {
+		for _, f := range e.factsAt(r.Block(), r, assume) {
 			m[f.Key()] = f
 		}
 		if len(assume) > 0 && e.unreachableUnder(r.Block(), assume) {
@@ -2018,8 +2414,18 @@ func (e *Env) returnFactsA(sel func(*ssa.Return) bool, why string, assume []Fact
 		}
 		// facts about the returned values themselves, in terms of "ret#i"
 		for i := range r.Results {
-			rv := retval(r, i)
+			rv := liveRetval(r, i)
 			rt := e.Term(rv)
+			if isInteger(rv.Type()) {
+				// an integer result is named by its linear atom (the term of a product carries extra parentheses)
+				if l := e.LE(rv); len(l.c) == 1 && l.k == 0 {
+					for a, k := range l.c {
+						if k == 1 {
+							rt = a
+						}
+					}
+				}
+			}
 			for k, f := range m {
 				if strings.Contains(k, rt) && !strings.HasPrefix(rt, "nil") && len(rt) > 3 {
 					g := f
@@ -2157,6 +2563,9 @@ func (e *Env) factsAt(p *ssa.BasicBlock, at ssa.Instruction, assume []Fact) []Fa
 	groups := map[string][]edge{}
 	rep := map[string]Fact{}
 	infeasibleEdges := map[edge]bool{}
+	if r, ok := at.(*ssa.Return); ok {
+		infeasibleEdges = errorEdges(r) // facts "at a successful return": paths that deliver an error do not count
+	}
 	for ed, fs := range ef {
 		for _, f := range fs {
 			k := f.Key()
@@ -2580,6 +2989,23 @@ func (e *Env) phiFacts() []Fact {
 			}
 			if okAll && init != nil {
 				out = append(out, Fact{Lin: true, LE: e.LE(ph).minus(e.LE(init)), Why: "loop induction: " + ph.Name() + " >= initial value"})
+			}
+			// descending counters: φ = [init, φ - c] with c >= 0 gives φ <= init
+			init, okAll = nil, true
+			for _, ed := range ph.Edges {
+				if bo, ok := ed.(*ssa.BinOp); ok && bo.X == ssa.Value(ph) {
+					if i, ok := constInt(bo.Y); ok && (bo.Op == token.SUB && i >= 0 || bo.Op == token.ADD && i <= 0) {
+						continue
+					}
+				}
+				if init == nil {
+					init = ed
+					continue
+				}
+				okAll = false
+			}
+			if okAll && init != nil && !isUnsignedT(ph.Type()) {
+				out = append(out, Fact{Lin: true, LE: e.LE(init).minus(e.LE(ph)), Why: "loop induction: " + ph.Name() + " <= initial value (descending)"})
 			}
 		}
 	}
